@@ -1,6 +1,6 @@
 //! C03 - message framing comes only from the headers; ambiguous framing is rejected.
 
-use super::httpgen::{check_conn, client_for, model_conn, Malf, Meta, Req, ReqKind};
+use super::httpgen::{check_conn_any, client_for, model_conn_variants, Malf, Meta, Req, ReqKind};
 use crate::engine::handler::{self, OnPending, OnReady, Plan, RespSpec};
 use crate::engine::server::{Engine, Frag, NoExtras, ServerCfg};
 use crate::gen;
@@ -56,9 +56,9 @@ fn framing_model(method: &str, cls: &[String], tes: &[String]) -> Option<Verdict
         _ => return Some(Verdict::Reject(Malf::ContentLength)), // repeated, equal or not
     };
     if coding.0 || coding.1 {
-        if cl.is_some() {
-            return None; // both a coding and a length: not pinned by the statement
-        }
+        // With a Content-Length as well the message is ambiguous (RFC 7230 3.3.3): the coding
+        // must still be reported and refused when read, or the message rejected outright;
+        // the caller accepts both readings. It must never be framed by the length.
         return Some(Verdict::Coded { chunked: coding.0, gzip: coding.1 });
     }
     Some(match cl {
@@ -115,7 +115,7 @@ fn decoy_body(n: usize, tag: usize) -> Vec<u8> {
     v
 }
 
-fn gen_message(conn: usize, i: usize, s: usize, last: bool) -> Option<Req> {
+fn gen_message(conn: usize, i: usize, s: usize, last: bool) -> Option<(Req, bool)> {
     let path = format!("/c{conn}r{i}");
     let method = gen::pick(&["GET", "M", "DELETE", "POST", "PUT"]).to_string();
     let cl_name = || gen::pick(&["content-length", "Content-Length", "CONTENT-LENGTH"]).to_string();
@@ -163,6 +163,16 @@ fn gen_message(conn: usize, i: usize, s: usize, last: bool) -> Option<Req> {
     }
     // --- Transfer-Encoding multiset (not together with a Content-Length: not pinned)
     let mut tes: Vec<(String, String)> = Vec::new();
+    let valid_single_cl = cls.len() == 1 && !huge && cls[0].1.trim_matches(|c| c == ' ' || c == '\t').bytes().all(|b| b.is_ascii_digit()) && !cls[0].1.trim_matches(|c| c == ' ' || c == '\t').is_empty();
+    if valid_single_cl && gen::ratio(1, 10) {
+        // a transfer coding next to a length (0 included)
+        if gen::ratio(1, 2) {
+            cls[0].1 = "0".into();
+        }
+        tes.push((gen::pick(&["transfer-encoding", "Transfer-Encoding"]).to_string(), gen::pick(&["chunked", "gzip", "gzip, chunked"]).to_string()));
+        // with length 0 nothing follows the head, so that every reading agrees about the next byte
+        body_len = if cls[0].1 == "0" { 0 } else { body_len };
+    }
     if cls.is_empty() {
         let te_name = || gen::pick(&["transfer-encoding", "Transfer-Encoding"]).to_string();
         match gen::weighted(&[10, 2, 1, 1, 2, 2]) {
@@ -183,6 +193,7 @@ fn gen_message(conn: usize, i: usize, s: usize, last: bool) -> Option<Req> {
     let cl_vals: Vec<String> = cls.iter().map(|x| x.1.clone()).collect();
     let te_vals: Vec<String> = tes.iter().map(|x| x.1.clone()).collect();
     let verdict = framing_model(&method, &cl_vals, &te_vals)?;
+    let ambiguous = !cl_vals.is_empty() && !te_vals.is_empty() && matches!(verdict, Verdict::Coded { .. });
     if verdict == Verdict::UntilEof && !last {
         return None; // an until-EOF body swallows everything that follows; only as last message
     }
@@ -271,13 +282,14 @@ fn gen_message(conn: usize, i: usize, s: usize, last: bool) -> Option<Req> {
     let content_length = match &verdict {
         Verdict::Body(n) => Some(*n),
         Verdict::Empty if !cl_vals.is_empty() => Some(0),
+        Verdict::Coded { .. } if ambiguous => cl_vals[0].trim_matches(|c| c == ' ' || c == '\t').parse::<u64>().ok(),
         _ => None,
     };
     let big = match kind {
         ReqKind::Known(n) => n as u64 + 100,
         _ => 1_000_000,
     };
-    Some(Req {
+    Some((Req {
         path,
         method,
         kind,
@@ -300,7 +312,7 @@ fn gen_message(conn: usize, i: usize, s: usize, last: bool) -> Option<Req> {
             gzip,
             content_length,
         }),
-    })
+    }, ambiguous))
 }
 
 fn scenario(cfg: &RunCfg) -> Outcome {
@@ -318,11 +330,16 @@ fn scenario(cfg: &RunCfg) -> Outcome {
     };
     let n = 1 + gen::below(8) as usize;
     let mut reqs: Vec<Req> = Vec::new();
+    let mut ambiguous: Vec<usize> = Vec::new();
     for i in 0..n {
         let mut tries = 0;
         loop {
             tries += 1;
-            if let Some(r) = gen_message(0, i, s, i + 1 == n) {
+            if let Some((r, amb)) = gen_message(0, i, s, i + 1 == n) {
+                if amb {
+                    ambiguous.push(reqs.len());
+                    gen::count("probe.coding_and_length_together");
+                }
                 reqs.push(r);
                 break;
             }
@@ -362,9 +379,10 @@ fn scenario(cfg: &RunCfg) -> Outcome {
         return Outcome::fail("C03.progress", format!("client stuck at step {} of {:?}; messages sent: {heads:?}", c0.pc, c0.ops.iter().map(|o| format!("{o:?}").chars().take(24).collect::<String>()).collect::<Vec<_>>()));
     }
     let conn = c0.conn.unwrap();
-    let exp = model_conn(&reqs, &scfg);
+    let variants = model_conn_variants(&reqs, &scfg, &ambiguous);
+    let exp = &variants[0];
     let at_eof = with(|w| w.client_at_eof(conn));
-    if let Some(mut v) = check_conn("C03", "conn", &exp, &calls, &c0.received, at_eof) {
+    if let Some(mut v) = check_conn_any("C03", "conn", &variants, &calls, &c0.received, at_eof) {
         let heads: Vec<String> = reqs.iter().map(|r| gen::show(&r.head())).collect();
         v.detail = format!("{} ; messages sent: {heads:?}", v.detail);
         return Outcome { violation: Some(v), nontrivial: true, ..Default::default() };
@@ -390,9 +408,9 @@ pub fn spec() -> PropertySpec {
     PropertySpec {
         id: "C03",
         level: "exploration",
-        rule: "Histories of 1-8 messages on one simulated connection to the real server with a recording handler that always fetches pending bodies. Each message draws method class x Content-Length multiset (absent; valid 0, 1, <=S, >S, >8 KiB buffer, padded, 2^64-1; +5, -1, 0x10, '5,5', empty, non-numeric, 2^64, '5 5', 1e3; repeated equal / different / differing in name case) x Transfer-Encoding multiset (absent, chunked, gzip, gzip+chunked, reversed, unknown, repeated) x Expect x Content-Type (every table entry, parameters, unknown) x 0-2 Cookie fields, fields shuffled. Bodies are filled with decoy request heads; every genuine request has a unique path. Delivery: pipelined or ping-pong, whole / byte-wise / random fragments, short socket reads. Oracle: an independent framing model folds the header multisets into Body(n) / Empty / UntilEof / Coded / Reject verdicts, giving the exact handler log (bodies, content type, expect flag, cookie map, coding flags) and responses; no decoy may ever reach the handler. Combinations the statement does not pin (coding + length, empty list elements, Expect without length on bodiless methods) are not generated. distinct = schedule hash; non-trivial = at least 2 messages.",
+        rule: "Histories of 1-8 messages on one simulated connection to the real server with a recording handler that always fetches pending bodies. Each message draws method class x Content-Length multiset (absent; valid 0, 1, <=S, >S, >8 KiB buffer, padded, 2^64-1; +5, -1, 0x10, '5,5', empty, non-numeric, 2^64, '5 5', 1e3; repeated equal / different / differing in name case) x Transfer-Encoding multiset (absent, chunked, gzip, gzip+chunked, reversed, unknown, repeated) x Expect x Content-Type (every table entry, parameters, unknown) x 0-2 Cookie fields, fields shuffled. Bodies are filled with decoy request heads; every genuine request has a unique path. Delivery: pipelined or ping-pong, whole / byte-wise / random fragments, short socket reads. Oracle: an independent framing model folds the header multisets into Body(n) / Empty / UntilEof / Coded / Reject verdicts, giving the exact handler log (bodies, content type, expect flag, cookie map, coding flags) and responses; no decoy may ever reach the handler. A coding together with a Content-Length (0 included) is generated too: the statement pins no single reading (its length clause and its coding clause both apply), so three are accepted: coding reported and refused when read, rejected outright, or - length 0 only - framed by the length. Combinations the statement does not pin (empty list elements, Expect without length on bodiless methods) are not generated. distinct = schedule hash; non-trivial = at least 2 messages.",
         scenarios: vec![Scenario { name: "c03.framing", property: "C03", func: scenario, runs_quick: 250_000, runs_thorough: 8_000_000, doc: "framing histories" }],
-        required_probes: vec!["probe.ambiguous_framing_rejected", "probe.transfer_coding", "probe.three_or_more_messages_framed"],
+        required_probes: vec!["probe.ambiguous_framing_rejected", "probe.transfer_coding", "probe.three_or_more_messages_framed", "probe.coding_and_length_together"],
         components: components_server(),
         assumptions: vec!["coding names are generated in lower case only", "obsolete line folding and absolute-form targets are outside the grammar the library documents"],
     }
